@@ -160,6 +160,8 @@ pub struct Hier {
     pub role_admin: Option<Symbol>,
     /// does `caller` hold RoleAdmin(T) in the pre-state
     pub caller_holds_role_admin: bool,
+    /// role name used in the key of slot S_CALLER_X
+    pub x_key: Symbol,
 }
 /// Admin (set or renounced), RoleAdmin(T) = an ARBITRARY role name (T itself, B, or any third role) or unset,
 /// and the caller's membership in that admin role.
@@ -181,6 +183,7 @@ pub fn declare_hierarchy(pre: &Pre, caller: &Address) -> Hier {
         admin: if ap { Some(admin) } else { None },
         role_admin: if rp { Some(x) } else { None },
         caller_holds_role_admin: rp && holds,
+        x_key: xk,
     }
 }
 
@@ -300,8 +303,7 @@ pub fn roles_inv_now(pre: &Pre) -> bool {
     roles_no_dup(&v) && v.contains(&T) == (count_now() > 0) && v.contains(&B) == (pre.cnt_b > 0)
 }
 
-fn authority_post(tag_auth: &'static str, caller: &Address, h: &Hier) -> (bool, bool) {
-    let _ = tag_auth;
+fn authority_post(_entry: &'static str, caller: &Address, h: &Hier) -> (bool, bool) {
     let is_admin = match &h.admin {
         Some(a) => a == caller,
         None => false,
@@ -386,8 +388,7 @@ pub fn grant_role_step() {
 
 // ------------------------------------------------------------------------------------------ revoke / renounce
 /// post-conditions of removing (account, T) by swap-and-pop
-fn removal_post(pre: &Pre, before: &Snap, account: &Address, tag: &'static str) -> [bool; 6] {
-    let _ = tag;
+fn removal_post(pre: &Pre, before: &Snap, account: &Address, _entry: &'static str) -> [bool; 6] {
     let k = pre.index_of(account);
     let last = pre.count.wrapping_sub(1);
     let moved = pre.account_at(last);
@@ -556,6 +557,8 @@ pub fn getters_agree() {
     prop!(same, "C06.getters.read_only");
     witness!(h == Some(2), "getters.member_with_index_2");
     witness!(h.is_none() && pre.count == 3, "getters.stranger_of_full_role");
+    // base case of the induction: the freshly constructed contract (nothing stored about roles) satisfies I
+    witness!(pre.count == 0 && pre.roles.len() == 0 && !before.s[S_CNT].present && !before.s[S_ROLES].present, "getters.initial_empty_state_satisfies_invariant");
 
     // member-by-index for an arbitrary index: returns normally only below the count
     let j: u32 = kani::any();
@@ -880,4 +883,123 @@ pub fn enforce_principal_auth() {
         witness!(true, "enforce_admin_auth.returns");
     }
     end_checks(2);
+}
+
+// ------------------------------------------------------------------------------------------ histories
+fn ghost_of(g: &[bool; NA], a: &Address) -> bool {
+    let mut r = false;
+    let mut i = 0;
+    while i < NA {
+        if a.id == i as u32 {
+            r = g[i];
+        }
+        i += 1;
+    }
+    r
+}
+fn ghost_set(g: &mut [bool; NA], a: &Address, v: bool) {
+    let mut i = 0;
+    while i < NA {
+        if a.id == i as u32 {
+            g[i] = v;
+        }
+        i += 1;
+    }
+}
+/// one symbolic invocation (grant / revoke / renounce) by `caller`; the authority clause is evaluated on the
+/// state the invocation started from (`ghost`, the unchanged hierarchy); the ghost set is updated by the named pair
+fn history_op(e: &Env, ghost: &mut [bool; NA], hier: &Hier, caller: &Address, holds_other_role: bool) -> (u8, Address) {
+    let kind: u8 = kani::any();
+    kani::assume(kind < 3);
+    let account = addr_below(NA as u32);
+    let is_admin = match &hier.admin {
+        Some(a) => a == caller,
+        None => false,
+    };
+    let holds = match &hier.role_admin {
+        Some(x) => {
+            if *x == T {
+                ghost_of(ghost, caller)
+            } else {
+                holds_other_role
+            }
+        }
+        None => false,
+    };
+    if kind == 0 {
+        <Nft as AccessControl>::grant_role(e, account.clone(), T, caller.clone());
+        prop!(authorized(caller) && (is_admin || holds), "C06.history.grant.authority_of_the_moment");
+        ghost_set(ghost, &account, true);
+        (kind, account)
+    } else if kind == 1 {
+        <Nft as AccessControl>::revoke_role(e, account.clone(), T, caller.clone());
+        prop!(authorized(caller) && (is_admin || holds), "C06.history.revoke.authority_of_the_moment");
+        prop!(ghost_of(ghost, &account), "C06.history.revoke.only_a_granted_pair");
+        ghost_set(ghost, &account, false);
+        (kind, account)
+    } else {
+        <Nft as AccessControl>::renounce_role(e, T, caller.clone());
+        prop!(authorized(caller), "C06.history.renounce.caller_authorized");
+        prop!(ghost_of(ghost, caller), "C06.history.renounce.only_a_granted_pair");
+        ghost_set(ghost, caller, false);
+        (kind, caller.clone())
+    }
+}
+
+/// two consecutive invocations by two (possibly different, differently privileged) callers, each with its own
+/// authorization set, from an arbitrary state satisfying I: afterwards the queryable membership is exactly
+/// "granted and not since revoked"
+#[kani::proof]
+#[kani::unwind(14)]
+pub fn history_two_calls() {
+    setup_world();
+    let e = Env::default();
+    let pre = declare_role();
+    kani::assume((pre.roles.len() as usize) < model::CAP);
+    let c1 = addr_below(4);
+    let c2 = addr_below(4);
+    let hier = declare_hierarchy(&pre, &c1);
+    // the second caller's membership in RoleAdmin(T) takes the place of the bystander count
+    let c2k = if c2 == c1 { Address::from_id(4) } else { c2.clone() };
+    let p2: bool = kani::any();
+    let i2: u32 = kani::any();
+    model::declare_val(S_CNT_B, 0, &Key::HasRole(c2k, hier.x_key), p2, &i2, kani::any());
+    let holds1 = model::slot(S_CALLER_X).present;
+    let holds2 = if c2 == c1 { holds1 } else { p2 };
+    let mut ghost = pre.member;
+
+    let (k1, a1) = history_op(&e, &mut ghost, &hier, &c1, holds1);
+    let mid = ghost;
+    let seq2: u32 = kani::any();
+    kani::assume(seq2 >= world().seq);
+    world().seq = seq2;
+    crate::handshake::redraw_auth();
+    let (k2, a2) = history_op(&e, &mut ghost, &hier, &c2, holds2);
+
+    let mut all = true;
+    let mut n = 0u32;
+    let mut i = 0;
+    while i < NA {
+        all &= has_now(i as u32).is_some() == ghost[i];
+        if ghost[i] {
+            n += 1;
+        }
+        i += 1;
+    }
+    prop!(all, "C06.history.membership_is_granted_and_not_since_revoked");
+    prop!(count_now() == n, "C06.history.count_is_cardinality");
+    prop!(enumeration_inv_now(), "C06.history.enumeration_gap_free");
+    let rn = roles_now();
+    prop!(rn.contains(&T) == (n > 0) && roles_no_dup(&rn), "C06.history.existing_roles");
+    let w = addr_below(4);
+    prop!(<Nft as AccessControl>::has_role(&e, w.clone(), T).is_some() == ghost_of(&ghost, &w), "C06.history.has_role_getter");
+    witness!(k1 == 0 && k2 == 1 && a1 == a2 && !pre.is_member(&a1), "history.grant_then_revoke");
+    witness!(k1 == 1 && k2 == 0 && a1 == a2, "history.revoke_then_regrant");
+    witness!(k1 == 0 && k2 == 0 && a1 != a2 && pre.count == 0, "history.two_grants_from_empty");
+    witness!(k1 == 0 && k2 == 2 && a1 == c2 && !pre.is_member(&a1), "history.grantee_renounces");
+    // a freshly granted member of a self-administered role uses its new authority
+    witness!(hier.role_admin == Some(T) && k1 == 0 && a1 == c2 && !pre.is_member(&c2) && k2 != 2 && hier.admin != Some(c2.clone()), "history.new_member_of_self_administered_role_acts");
+    // a revoked role admin has lost its authority: (revoke c2 by c1, then c2 acts) is only possible through another title
+    witness!(hier.role_admin == Some(T) && k1 == 1 && a1 == c2 && k2 == 0 && mid != pre.member, "history.revoked_holder_acts_as_admin_only");
+    end_checks(DECLARED);
 }
